@@ -1467,14 +1467,20 @@ reply_parse(struct evdns_base *base, u8 *packet, int length)
 		ttl_r = 0;
 
 	reply_handle(req, flags, ttl_r, &reply);
-	if (reply.data.raw)
+	if (reply.data.raw) {
+		/* nobody took ownership of the reply */
 		mm_free(reply.data.raw);
+		if (reply.cname)
+			mm_free(reply.cname);
+	}
 	return 0;
  err:
 	if (req)
 		reply_handle(req, flags, 0, NULL);
 	if (reply.data.raw)
 		mm_free(reply.data.raw);
+	if (reply.cname)
+		mm_free(reply.cname);
 	return -1;
 }
 
